@@ -90,7 +90,7 @@ PROPS = {
         props_module="Ucan.Props.C12",
         streams=["selector"],
         technique="Lean 4 proof that the Go-shaped resolve loop equals the fold of per-kind specification steps (Python index/slice rules proved with omega); model tied to the code by an exhaustive short-selector × value differential run through selector.Parse + Select",
-        level_text="All theorems hold for BOTH readings of the one point C12 leaves open (an optional slice on a value that cannot be sliced: error, as the code does, or 'no value' — parameter `lenient` of model and specification; C12_latitude_is_optional_slice_only: the readings differ nowhere else; the comparison accepts either). C12_resolve_eq_spec: for every segment list and every IPLD value, the model of resolve() (one branch per case of the Go switch) equals the left fold of the specification's per-kind step (field on map, Python index on list/bytes, Python slice on list/bytes/string-by-character, iterator, identity); C12_compositional: resolve (a++b) = resolve a >>= resolve b; C12_slice_eq_python / C12_slice_in_range / C12_index_eq_python for all integer bounds and lengths; optional field/index never error; classification theorems incl. empty field names. Go's Parse+Select is compared with model and spec on every selector of ≤ 2 (3 thorough) segments over 24 shapes × 18 values and on random longer ones.",
+        level_text="All theorems hold for EVERY reading of the points C12 leaves open (structure `Lat` of model and specification: an optional slice on a value that cannot be sliced — error, as the code does, or 'no value'; an optional iterator on null and on a scalar — error, 'no value' or the empty list; C12_latitude_only_optional_slice_or_iterator: readings differ nowhere else; the comparison accepts each reading of the slice and of the iterator on a scalar, and keeps the specification's `.[]?` on null = [] fixed). C12_resolve_eq_spec: for every segment list and every IPLD value, the model of resolve() (one branch per case of the Go switch) equals the left fold of the specification's per-kind step (field on map, Python index on list/bytes, Python slice on list/bytes/string-by-character, iterator, identity); C12_compositional: resolve (a++b) = resolve a >>= resolve b; C12_slice_eq_python / C12_slice_in_range / C12_index_eq_python for all integer bounds and lengths; optional field/index never error; classification theorems incl. empty field names. Go's Parse+Select is compared with model and spec on every selector of ≤ 2 (3 thorough) segments over 24 shapes × 18 values and on random longer ones.",
         level_note="Trusted: Lean kernel; Model/Selector.lean and Model/SelectorParse.lean render selector.go/parsing.go by hand (checked differentially, not proved); go-ipld-prime basicnode behaviour (LookupByString, iterators, qp.BuildList) is represented by the Node model; \\p{L} is a parameter instantiated with Go's unicode.IsLetter.",
         assumptions=["map keys are unique (basicnode rejects duplicates at assembly)", "string slicing by character uses the Go UTF-8 decoding rules modelled in Model/Utf8.lean, checked differentially incl. invalid UTF-8"],
     ),
